@@ -61,6 +61,8 @@
   # children that exit with code 3 when the director writes a line to their stdin (:x = non-zero exit raises)
   (set procs (seq [_ :range [0 (get item :nprocs 0)]]
                (os/spawn ["/bin/sh" "-c" "read x; exit 3"] :px {:in :pipe})))
+  # posix_spawn returns a moment before the children have dropped their close-on-exec copies of the pipes above
+  (each p procs (verif/wait-exec (p :pid)))
   (def world (d/new-world (item :nw)))
   (d/quiesce world)
   (def t0 (verif/now))
